@@ -27,6 +27,8 @@ func runC08(c *Ctx) {
 	c08R2(c, m)
 	c08R3(c, m, "R3")
 	c08R4(c)
+	exprListFresh(c, "R4")
+	c.shared("R7", "C09/R3", "arguments are passed by value: the copy of a null argument is a plain null without the link to the object it was read from (through which an assignment to the parameter would create a member in the caller's object)", keyHas("copy Value", "copy-on-insert ExprCall.Args"), c09R3)
 	sentinelIdentity(c, "R6")
 	if es := c.P.LangFunc("(*Evaluator).evalStatement"); es != nil {
 		c.shared("R5", "C07/R4", "a call yields the value of the executed return statement: the return arm stores the value in the slot and raises errReturn, only callFunction reads the slot", keyHas("return-"), func(s *Ctx) { c07Return(s, es) })
@@ -528,4 +530,50 @@ func isLenCall(v ssa.Value) bool {
 	}
 	bi, ok := call.Call.Value.(*ssa.Builtin)
 	return ok && bi.Name() == "len"
+}
+
+// exprListFresh: the list of evaluated cells handed to print / call / array construction is the
+// caller's own
+func exprListFresh(c *Ctx, rule string) {
+	p := c.P
+	c.note("%s expression-list-fresh: evalExprList returns a slice made in that call (every success result is rooted in a make inside the function) and does not keep it anywhere: an evaluation nested in one of the list's expressions (a call that prints, a match body) cannot overwrite cells the outer statement has already collected.", rule)
+	el := p.LangFunc("(*Evaluator).evalExprList")
+	if el == nil {
+		c.undecided(rule, "evalExprList", "", "anchor not found")
+		return
+	}
+	n := 0
+	for _, r := range returnsOf(el) {
+		res := effectiveResults(r)
+		if !EKOf(p).KindsAt(res[len(res)-1], FactsOf(el).At(r.Block())).Has(KNil) {
+			continue
+		}
+		n++
+		var bad []string
+		for _, root := range sliceRoots(res[0], map[ssa.Value]bool{}) {
+			switch x := root.(type) {
+			case *ssa.MakeSlice:
+			case *ssa.Slice:
+				if _, isAlloc := x.X.(*ssa.Alloc); !isAlloc {
+					bad = append(bad, p.RenderShort(root))
+				}
+			default:
+				bad = append(bad, p.RenderShort(root))
+			}
+		}
+		c.check(len(bad) == 0, rule, fmt.Sprintf("expression-list-fresh return#%d", n), p.InstrPos(r), "the returned list is made in this call", "the list of evaluated expressions can be {"+strings.Join(bad, ", ")+"}, storage that outlives the call: a nested evaluation of another list overwrites what the outer statement has collected (print 1, 2, f() prints f's own print arguments)")
+	}
+	// and it is not kept
+	allInstrs(el, func(in ssa.Instruction) {
+		st, ok := in.(*ssa.Store)
+		if !ok || isLocalAddr(st.Addr) {
+			return
+		}
+		if strings.HasPrefix(st.Val.Type().String(), "[]*") && strings.HasSuffix(st.Val.Type().String(), ".Cell") {
+			c.violated(rule, "expression-list-kept", p.InstrPos(st), "evalExprList stores the list it returns into "+p.RenderShort(st.Addr)+": the next call reuses storage the previous caller may still be reading")
+		}
+	})
+	if n == 0 {
+		c.undecided(rule, "expression-list-fresh", p.Pos(el.Pos()), "no successful return found")
+	}
 }
